@@ -29,7 +29,7 @@ func init() { core.Register(prop{}) }
 func (prop) ID() string    { return "C14" }
 func (prop) Level() string { return "exploration" }
 func (prop) Rule() string {
-	return "scenario = 1..4 simultaneous client connections to a fresh raw listener (verif constructor, synchronous injection into the real handleTCP): client ISN from {0,1,2^31-1,2^31,2^32-2,2^32-1} or seeded, source/destination ports incl. decoded ones and swapped port pairs, payload 0..4000 bytes in 1..8 in-order segments (<=1460 bytes, odd and even lengths, PSH on a chosen segment), FIN; all interleavings of 2 connections x 5 frames (252) and seeded interleavings beyond; a seeded subset parks the connection handler at the yield point between its buffer check and its wait while the pushed data is injected. Oracle: RFC 793 shadow model of the peer's expectations over the frames drained from the transmit ring (decoded and checksum-verified by an independent codec) and the connection's event. Non-trivial = the SYN was answered; distinct by scenario parameters. Also: per peer address, IPv4 identification values at which the reply header's checksum needs a second carry fold or crosses a carry boundary (derived from the SYN-ACK, set through the hook VerifSetIPID); and a reconnect from the same address and port after a connection has been carried to its end. Every fifth seeded scenario delivers its frames padded to the Ethernet minimum of 60 bytes, every tenth with a four-byte trailer as well. One seeded connection in seven puts its FIN on the last data segment. first-ends-while-second-open: connection A is finished on both sides (optionally followed by a last ACK or a RST) between B's handshake and B's data. Events of connections that share an address/port tuple are attributed by the bytes they carry."
+	return "scenario = 1..4 simultaneous client connections to a fresh raw listener (verif constructor, synchronous injection into the real handleTCP): client ISN from {0,1,2^31-1,2^31,2^32-2,2^32-1} or seeded, source/destination ports incl. decoded ones and swapped port pairs, payload 0..4000 bytes in 1..8 in-order segments (<=1460 bytes, odd and even lengths, PSH on a chosen segment), FIN; all interleavings of 2 connections x 5 frames (252) and seeded interleavings beyond; a seeded subset parks the connection handler at the yield point between its buffer check and its wait while the pushed data is injected. Oracle: RFC 793 shadow model of the peer's expectations over the frames drained from the transmit ring (decoded and checksum-verified by an independent codec) and the connection's event. Non-trivial = the SYN was answered; distinct by scenario parameters. Also: per peer address, IPv4 identification values at which the reply header's checksum needs a second carry fold or crosses a carry boundary (derived from the SYN-ACK, set through the hook VerifSetIPID); and a reconnect from the same address and port after a connection has been carried to its end. Every fifth seeded scenario delivers its frames padded to the Ethernet minimum of 60 bytes, every tenth with a four-byte trailer as well. One seeded connection in seven puts its FIN on the last data segment. first-ends-while-second-open: connection A is finished on both sides (optionally followed by a last ACK or a RST) between B's handshake and B's data. Events of connections that share an address/port tuple are attributed by the bytes they carry. connect-after-reset-same-tuple: a half-open scan (SYN, SYN-ACK, RST) followed by a full connection on the same address/port tuple."
 }
 func (prop) Assumptions() []string {
 	return []string{"frames are injected through the verif accessor that runs the receive loop's parse-and-dispatch in the caller's goroutine; emitted frames are read from the transmit ring instead of the wire", "the server's initial sequence number is drawn by the implementation and learned from its SYN-ACK (its boundary values are not steerable)", "segments are at most 1460 bytes and in order"}
@@ -50,6 +50,8 @@ type conn struct {
 	FinData bool `json:"fin_on_last_data_segment,omitempty"`
 	// End: one more segment after the client's FIN: "ack" (a last bare acknowledgment) or "rst"
 	End string `json:"end,omitempty"`
+	// RstOnly: the client answers the SYN-ACK with a RST and that is all (a half-open scan)
+	RstOnly bool `json:"rst_after_synack,omitempty"`
 }
 
 type scenario struct {
@@ -72,6 +74,9 @@ func (sc scenario) peer(i int) net.IP {
 }
 
 func (c conn) nframes() int {
+	if c.RstOnly {
+		return 2
+	}
 	n := 2 + len(c.Segs)
 	if c.Fin && !(c.FinData && len(c.Segs) > 0) {
 		n++
@@ -217,6 +222,23 @@ func scenarios(tier string, seed int64) []scenario {
 			sc.Order = append(sc.Order, 0)
 		}
 		// the client's last ACK (of the listener's FIN) travels with its FIN here; one more ACK closes the first connection
+		for j := 0; j < b.nframes(); j++ {
+			sc.Order = append(sc.Order, 1)
+		}
+		out = append(out, sc)
+	}
+	// a half-open scan (SYN, SYN-ACK, RST) followed by a full connection on the same address/port tuple
+	nrs := 8
+	if tier == "thorough" {
+		nrs = 100
+	}
+	for i := 0; i < nrs; i++ {
+		r := core.NewRng(seed, "C14/after-reset", i)
+		a := conn{Peer: 0, Sport: 28000 + i, Dport: []int{4444, 8080, 23, 5000}[i%4], ISN: uint32(r.U64()), Psh: -1, RstOnly: true}
+		b := a
+		b.RstOnly, b.ISN = false, []uint32{a.ISN, uint32(r.U64()), 0, 1<<32 - 1}[i%4]
+		b.Segs, b.Psh, b.Fin = []int{r.Range(1, 40)}, 0, true
+		sc := scenario{Conns: []conn{a, b}, Kind: "connect-after-reset-same-tuple", Order: []int{0, 0}}
 		for j := 0; j < b.nframes(); j++ {
 			sc.Order = append(sc.Order, 1)
 		}
@@ -440,6 +462,9 @@ func runScenario(k int, sc scenario) scnObs {
 				continue
 			}
 			t.Seq, t.Ack, t.Flags = c.ISN+1, s.ack, fr.ACK
+			if c.RstOnly {
+				t.Ack, t.Flags = 0, fr.RST
+			}
 			if sc.Park {
 				// let the handler goroutine reach the yield point before the data is injected
 				defer func() {}()
